@@ -212,15 +212,22 @@ func (ts *TimeSeries) TakeFrom(src []byte) ([]byte, error) {
 		}
 		return nil, errors.New("step must not be zero")
 	}
+	if ts.step < 0 {
+		return nil, errors.New("step must not be negative")
+	}
 	if ts.untilTime < ts.fromTime {
 		return nil, errors.New("untilTime is older than fromTime")
 	}
 
-	n := int(ts.untilTime.Sub(ts.fromTime) / ts.step)
-	wantedSize := n * float64Size
-	if len(src) < wantedSize {
-		return nil, &WantLargerBufferError{WantedBufSize: 3*uint32Size + wantedSize}
+	n64 := int64(uint32(ts.untilTime-ts.fromTime)) / int64(ts.step)
+	wantedSize64 := n64 * float64Size
+	if int64(len(src)) < wantedSize64 {
+		if wantedSize64 > math.MaxInt32 {
+			return nil, errors.New("too many values")
+		}
+		return nil, &WantLargerBufferError{WantedBufSize: 3*uint32Size + int(wantedSize64)}
 	}
+	n := int(n64)
 
 	ts.values = make([]Value, n)
 	for i := 0; i < n; i++ {
@@ -310,9 +317,13 @@ func (pp *Points) TakeFrom(src []byte) ([]byte, error) {
 		return nil, &WantLargerBufferError{WantedBufSize: uint64Size}
 	}
 
-	count := int(binary.BigEndian.Uint64(src))
+	count64 := binary.BigEndian.Uint64(src)
 	src = src[uint64Size:]
 
+	if count64 > math.MaxInt32/pointSize {
+		return nil, errors.New("too many points")
+	}
+	count := int(count64)
 	wantedSize := count * pointSize
 	if len(src) < wantedSize {
 		return nil, &WantLargerBufferError{WantedBufSize: uint64Size + wantedSize}
